@@ -239,9 +239,10 @@ class CallMixin:
                     keep = z3.Select(dst_arr, bv(do + t, 64))
                     dst_arr = z3.Store(dst_arr, bv(do + t, 64), z3.If(z3.ULT(bv(t, 64), cnt), v, keep))
             elif cc is not None and cc <= SMALL_COPY:
-                vals = [z3.Select(src_arr, soff + bv(i, 64)) for i in range(cc)]
+                vals = [self.select(src_arr, soff + bv(i, 64), sr.id) for i in range(cc)]
                 for i, v in enumerate(vals):
-                    dst_arr = z3.Store(dst_arr, doff + bv(i, 64), v)
+                    self._put(dr, doff + bv(i, 64), v)
+                return d
             else:
                 k = z3.BitVec('k!cp%d' % self.fresh_id(), 64)
                 dst_arr = z3.Lambda([k], z3.If(z3.And(z3.UGE(k, doff), z3.ULT(k - doff, cnt)),
@@ -262,7 +263,7 @@ class CallMixin:
             raise Unsupported('memcpy within one region at two types')
         bytes_ = []
         for i in range(nc // ssz):
-            v = self._get(sr, soff + bv(i, 64))
+            v = self._get(sr, soff + bv(i, 64)) if sr.kind == 'cell' else self.select(self.st.mem[sr.id], soff + bv(i, 64), sr.id)
             for j in range(ssz):
                 bytes_.append(z3.Extract(8 * j + 7, 8 * j, v))
         for i in range(nc // dsz):
@@ -293,7 +294,12 @@ class CallMixin:
         if r.kind == 'cell':
             self.st.mem[r.id] = v
         else:
-            self.st.mem[r.id] = z3.Store(self.st.mem[r.id], idx, v)
+            si = idx if z3.is_bv_value(idx) else z3.simplify(idx)
+            old_arr = self.st.mem[r.id]
+            new_arr = z3.Store(old_arr, si if z3.is_bv_value(si) else idx, v)
+            self.st.mem[r.id] = new_arr
+            if z3.is_bv_value(si):
+                self.store_lit(r.id, old_arr, new_arr, si.as_long(), v)
         self.st.written.add(r.id)
         self.st.version += 1
 
